@@ -85,7 +85,7 @@ pub fn history(r: &Recipe) -> Vec<VecOp> {
                     16..=19 => CAP - (s >> 8) as usize % 3,
                     // absurd lengths around the width of the length field (u16) and of usize
                     20 => 65536 + (s >> 8) as usize % 70,
-                    21 => (1usize << 32) + (s >> 8) as usize % 70,
+                    21 => ((1u64 << 32) as usize).wrapping_add((s >> 8) as usize % 70),
                     _ => usize::MAX - (s >> 8) as usize % 70,
                 };
                 if len <= CAP {
